@@ -116,3 +116,25 @@ package tablist
 //@   at-call deleteEntries as del: assert arg0 == t && ref(arg1) == ref(ids) && len(arg1) == len(ids)
 //@   at-call BufferPacket as send: assert [the-client-is-told-exactly-what-was-removed] called(del) && len(res(del)) != 0 && dyntype(arg1, "playerinfo.Remove") && ref(cast(arg1, *playerinfo.Remove).PlayersToRemove) == ref(res(del)) && len(cast(arg1, *playerinfo.Remove).PlayersToRemove) == len(res(del))
 //@   ensures [removed-entries-are-announced] called(del) && (len(res(del)) != 0 ==> called(send))
+
+// API setters on an entry (model first, then the client): list order is announced exactly to viewers on 1.21.2 or later
+// (inclusive), hat visibility to viewers on 1.21.4 or later (inclusive), listed / latency always - each with its own
+// action and the new value, so what Entries() reports is what the client was told.
+//@ func (*Entry).SetListOrder
+//@   props C28
+//@   at-call GreaterEqual as gate: assert arg1 == version.Minecraft_1_21_2
+//@   at-call EmitActionRaw as emit: assert [client-told-the-new-order] called(gate) && res(gate) && arg1 == playerinfo.UpdateListOrderAction && arg2.ListOrder == i
+//@   ensures [told-iff-the-viewer-knows-list-order] called(gate) && (res(gate) && result == nil ==> called(emit)) && (!res(gate) ==> !called(emit))
+//@ func (*Entry).SetShowHat
+//@   props C28
+//@   at-call GreaterEqual as gate: assert arg1 == version.Minecraft_1_21_4
+//@   at-call EmitActionRaw as emit: assert [client-told-the-new-hat-visibility] called(gate) && res(gate) && arg1 == playerinfo.UpdateHatAction && arg2.ShowHat == showHat
+//@   ensures [told-iff-the-viewer-knows-hats] called(gate) && (res(gate) && result == nil ==> called(emit)) && (!res(gate) ==> !called(emit))
+//@ func (*Entry).SetListed
+//@   props C28
+//@   at-call EmitActionRaw as emit: assert [client-told-the-new-listed-flag] arg1 == playerinfo.UpdateListedAction && arg2.Listed == listed
+//@   ensures [always-told] result == nil ==> called(emit)
+//@ func (*Entry).SetLatency
+//@   props C28
+//@   at-call EmitActionRaw as emit: assert [client-told-with-the-latency-action] arg1 == playerinfo.UpdateLatencyAction
+//@   ensures [always-told] result == nil ==> called(emit)
